@@ -40,9 +40,14 @@ def cfg(max_lines, kinds, includes, export=False):
 
 
 def text_of(kinds, file_key):
+    import zlib
+    # layout: in half of the documents the instructions do not begin in the first column
+    indent = '   ' if zlib.crc32(('/'.join(kinds) + file_key).encode()) % 2 else ''
     lines = []
     for k in kinds:
         l = LINE[k]
+        if k in ('I', 'MLs', 'INC', 'IB', 'IC', 'IM', 'IMISS'):
+            l = indent + l
         if file_key == 'C':
             # paths in including directives are relative to the including file's directory
             l = l.replace('including B.xly', 'including ../B.xly').replace('including sub/C.xly', 'including C.xly') \
@@ -154,6 +159,9 @@ def parse_doc(task, cd, sub=None):
                 if name == 'act':
                     # documented: a leading "\[" in the act phase stands for "[" (escaped header line)
                     want = [w.replace('\\[', '[', 1) if w.lstrip().startswith('\\[') else w for w in want]
+                elif want:
+                    # the text of an instruction begins where the instruction begins (layout before it is not part)
+                    want = [want[0].lstrip()] + want[1:]
                 if lines != want:
                     els[-1].append('TEXT-MISMATCH %r' % (lines,))
         res[name] = els
